@@ -215,6 +215,10 @@ def hyp_cases(draw, tier):
     return {"profile": profile, "spec": spec, "configs": configs}
 
 
+# (what round 8 added to the case domain; part of the evidence text)
+RULE_ROUND8 = ' String profiles hold instances of a str subclass whose str() / format() texts differ from the value for a third of the labels; target stringio-offset (the stream stands behind an application header when save() and load() are called); value_map lists padded to 10 / 100 / 1000 entries; big trees (> 250 nodes) one case in 20. Part c-locale: the roundtrip part once more in a child interpreter with LC_ALL=C, UTF-8 mode and locale coercion off.'
+RULE = RULE + RULE_ROUND8
+
 PARTS = [
     Part("roundtrip", run, strategy=lambda tier: hyp_cases(tier), n={"quick": 1000, "thorough": 100000}),
     nested_part("C05", ["roundtrip"], {"LC_ALL": "C", "LANG": "C", "PYTHONUTF8": "0", "PYTHONCOERCECLOCALE": "0", "PYTHONIOENCODING": "utf8"}, "c-locale", "text files opened without an explicit encoding are read and written as ASCII"),
